@@ -262,6 +262,11 @@ def parse_statement(lexer, toplevel=False):
                             )
                         if lexer.peekn(1, ";", "interpunction"):
                             lexer.match(";", "interpunction")
+                    else:
+                        raise CklSyntaxError(
+                            "Expected def or end in class body",
+                            lexer.getPosNext(),
+                        )
                 lexer.match("end", "keyword")
                 return result
             else:
